@@ -533,6 +533,19 @@ func runC06(tier string, r *Result) {
 			judge(render(ps, nil)+g, "trailing")
 		}
 	}
+	// (c) interface names around the 255-byte limit with the first member glued to them, one blank or one newline
+	// behind them: a name is the longest run of name characters, whatever its length
+	if r.mine(0) {
+		for n := 250; n <= 260; n++ {
+			for _, nm := range []string{"a." + strings.Repeat("b", n-2), "a." + strings.Repeat("b1-", (n-2)/3) + strings.Repeat("c", (n-2)%3), strings.Repeat("ab.", n/3) + "d" + strings.Repeat("e", n%3)} {
+				for _, rest := range []string{"type T ()\nmethod F() -> ()\n", "method F() -> ()\n", "error E ()\nmethod F() -> ()\n"} {
+					for _, sep := range []string{"", " ", "\n", "\n# c\n"} {
+						judge("interface "+nm+sep+rest, "longname")
+					}
+				}
+			}
+		}
+	}
 	r.Extra["accepted_token_sequences"] = accepted
 	r.outcome(fmt.Sprintf("accepted-token-sequences-in-shard>0:%v", accepted > 0))
 	r.MaxBound = maxLen
